@@ -238,9 +238,11 @@ func c09Scenario(p c09Params) *explore.Scenario {
 
 // c09SplitCall issues sender s's k-th message: a different command method and target per sender, a text of about
 // 150 bytes, split into several lines by SplitLen = 60.
-func c09SplitCall(c *client.Conn, s, k int) {
+func c09SplitCall(c *client.Conn, s, k int) { c09SplitCallM(c, s, k, s%4) }
+
+func c09SplitCallM(c *client.Conn, s, k, method int) {
 	text := fmt.Sprintf("s%d-m%d ", s, k) + strings.Repeat(fmt.Sprintf("w%d%d ", s, k), 30)
-	switch s % 4 {
+	switch method {
 	case 0:
 		c.Privmsg(fmt.Sprintf("#c%d", s), text)
 	case 1:
@@ -253,11 +255,22 @@ func c09SplitCall(c *client.Conn, s, k int) {
 }
 
 func c09SplitScenario(senders, msgs, chanCap int) *explore.Scenario {
+	return c09SplitScenarioM(senders, msgs, chanCap, -1)
+}
+
+// c09SplitScenarioM: method >= 0 makes every sender use that one command method (to its own target), after a
+// warm-up message of the same method from the main task (so that whatever the method keeps between calls exists).
+func c09SplitScenarioM(senders, msgs, chanCap, method int) *explore.Scenario {
 	sc := &explore.Scenario{
 		Family: "sendsplit",
 		Name:   fmt.Sprintf("sendsplit/senders=%dx%d/cap=%d", senders, msgs, chanCap),
-		Params: map[string]interface{}{"senders": senders, "messages": msgs, "chancap": chanCap},
+		Params: map[string]interface{}{"senders": senders, "messages": msgs, "chancap": chanCap, "method": method},
 		Opt:    vx.Options{ChanCap: chanCap, MaxSteps: 60000},
+	}
+	call := c09SplitCall
+	if method >= 0 {
+		sc.Name += fmt.Sprintf("/method=%d", method)
+		call = func(c *client.Conn, s, k int) { c09SplitCallM(c, s, k, method) }
 	}
 	mod := func(cfg *client.Config) { cfg.SplitLen = 60 }
 	sc.Main = func(env *vx.Env) {
@@ -266,12 +279,16 @@ func c09SplitScenario(senders, msgs, chanCap int) *explore.Scenario {
 			return
 		}
 		vx.Quiesce()
+		if method >= 0 {
+			call(c, 9, 9)
+			vx.Quiesce()
+		}
 		done := vx.NewCounter("senders-done")
 		for s := 0; s < senders; s++ {
 			s := s
 			env.Go(fmt.Sprintf("sender%d", s), func() {
 				for k := 0; k < msgs; k++ {
-					c09SplitCall(c, s, k)
+					call(c, s, k)
 				}
 				done.Add(1)
 			})
@@ -297,7 +314,7 @@ func c09SplitScenario(senders, msgs, chanCap int) *explore.Scenario {
 					}
 					n := len(sess.Wire())
 					for k := 0; k < msgs; k++ {
-						c09SplitCall(sess.C, s, k)
+						call(sess.C, s, k)
 					}
 					vx.Quiesce()
 					vx.Observe("pilot", strings.Join(sess.WireSince(n), "\n"))
@@ -329,8 +346,8 @@ func c09SplitScenario(senders, msgs, chanCap int) *explore.Scenario {
 		}
 		next := make([]int, senders)
 		for _, l := range o.Conns[0].Lines() {
-			if strings.HasPrefix(l, "NICK ") || strings.HasPrefix(l, "USER ") {
-				continue
+			if strings.HasPrefix(l, "NICK ") || strings.HasPrefix(l, "USER ") || strings.Contains(l, "s9-m9") || strings.Contains(l, "w99 ") {
+				continue // registration, warm-up
 			}
 			s, ok := owner[l]
 			switch {
@@ -467,7 +484,7 @@ func init() {
 	}
 	Register(&Prop{
 		ID:   "C09",
-		Rule: "2-3 concurrent user senders x 1-3 lines (alternating Raw / Privmsg), optionally a foreground handler answering 1-2 incoming events with 1-2 lines, server reading at once or through a 64-byte pipe drained line by line by a server task, queue capacity 32 / 2 / 1, senders started after or during registration; 2-4 concurrent senders of messages that SplitLen = 60 splits into 3-4 lines each (Privmsg, Notice, Ctcp, CtcpReply to different targets; expected lines = what the same calls produce alone); one sender with Raw lines of every length 1..1300 and around 2048 / 4096 / 8192 bytes compared byte for byte; small harnesses are explored without any deviation bound (state cache), the rest within K<=2-3; distinct = distinct wire transcripts per scenario",
+		Rule: "2-3 concurrent user senders x 1-3 lines (alternating Raw / Privmsg), optionally a foreground handler answering 1-2 incoming events with 1-2 lines, server reading at once or through a 64-byte pipe drained line by line by a server task, queue capacity 32 / 2 / 1, senders started after or during registration; 2-4 concurrent senders of messages that SplitLen = 60 splits into 3-4 lines each (Privmsg, Notice, Ctcp, CtcpReply to different targets, mixed or all senders using the same method after a warm-up message; expected lines = what the same calls produce alone); one sender with Raw lines of every length 1..1300 and around 2048 / 4096 / 8192 bytes compared byte for byte; small harnesses are explored without any deviation bound (state cache), the rest within K<=2-3; distinct = distinct wire transcripts per scenario",
 		Assumptions: []string{
 			"interleavings at synchronisation/channel/socket granularity (DESIGN.md 3.8)",
 			"unbounded mode relies on the happens-before state cache; cache-on/off agreement is cross-checked at a small bound",
@@ -526,6 +543,10 @@ func init() {
 			jobs = append(jobs, ExploreJob("C09", ExploreSpec{Sc: c09SplitScenario(2, 1, 1), Variants: []int{1, 2, 3}, Budgets: bs, Cache: true}, 30))
 			jobs = append(jobs, ExploreJob("C09", ExploreSpec{Sc: c09SplitScenario(3, 2, 0), Variants: []int{1, 2, 3}, Budgets: b2, Cache: true}, 30))
 			jobs = append(jobs, ExploreJob("C09", ExploreSpec{Sc: c09SplitScenario(4, 1, 2), Variants: []int{1, 2, 3}, Budgets: b2, Cache: true}, 30))
+			for method := 0; method < 4; method++ {
+				jobs = append(jobs, ExploreJob("C09", ExploreSpec{Sc: c09SplitScenarioM(2, 1, 1, method), Variants: []int{1, 2, 3}, Budgets: b2, Cache: true}, 30))
+			}
+			jobs = append(jobs, ExploreJob("C09", ExploreSpec{Sc: c09SplitScenarioM(3, 2, 2, 0), Variants: []int{1, 2, 3}, Budgets: b2, Cache: true}, 30))
 			jobs = append(jobs, c09LadderJob())
 			// many lines through the real queue: senders really block on the 32-slot queue when the server is slow
 			add(c09Params{Senders: 2, Lines: 40, Slow: true}, []explore.Budget{{0, 0}, {1, 0}}, []int{1, 2, 3}, 60, false)
